@@ -380,6 +380,86 @@ Definition resolve (sp : pspec) : result (rspec * Z) :=
     do tpl <- parse_template src; do a <- alpha_new tpl abc mc rc; Ok (RAlpha tpl pid a, alpha_start)
   end.
 
+(* ---------------------------------------------------------------- one generator, several names *)
+
+(* A recipe gets at a generator through NAMES: the nickname of the row that holds it in a (hidden) field, the
+   table name of that row, a `reference:` field of another row, a `var:` holding a reference ...  The store maps
+   names to generator numbers of the process machine (positions in ps_gens).  What a continuation does
+   (ObjectRow / PluginResult state written to the continuation file with one YAML anchor per Python object and
+   aliases for the further occurrences, read back by PluginResult._from_continuation) is [n_continue]: every
+   generator that some name denotes is built anew ONCE — a new constructor call with the saved arguments, hence a
+   new context number and the index restarting at `start` — and every name that denoted the old generator
+   denotes the new one. *)
+Definition nstore := list (nat * nat).
+
+Fixpoint st_lookup (st : nstore) (nm : nat) : option nat :=
+  match st with
+  | [] => None
+  | e :: r => if Nat.eqb (fst e) nm then Some (snd e) else st_lookup r nm
+  end.
+Definition st_forget (st : nstore) (nm : nat) : nstore :=
+  filter (fun e => negb (Nat.eqb (fst e) nm)) st.
+Definition st_bind (st : nstore) (nm g : nat) : nstore := (nm, g) :: st_forget st nm.
+
+Fixpoint gen_position (x : nat) (l : list nat) : nat :=
+  match l with
+  | [] => O
+  | y :: r => if Nat.eqb y x then O else S (gen_position x r)
+  end.
+
+(* ns_made: the constructor arguments (resolved spec, start) of every generator of the machine, by number *)
+Record nstate := mkNstate { ns_store : nstore; ns_made : list (rspec * Z) }.
+Definition n_init : nstate := mkNstate [] [].
+
+Inductive nop :=
+| NNew (nm : nat) (sp : pspec)     (* a constructor call; the name denotes the new generator *)
+| NAlias (nm' nm : nat)            (* nm' denotes what nm denotes *)
+| NDraw (nm : nat)                 (* one draw through a name *)
+| NForget (nm : nat)               (* the name goes out of scope (rows and variables that are not saved) *)
+| NContinue                        (* the run ends, the next run continues it from the continuation file *)
+| NFresh.                          (* the run ends, the next run starts from nothing *)
+
+Definition reachable (st : nstore) : list nat := nodup Nat.eq_dec (map snd st).
+
+Definition n_continue (st : nstate) : nstate * list pop :=
+  let gs := reachable (ns_store st) in
+  let base := length (ns_made st) in
+  let args := map (fun g => nth g (ns_made st) (RNum [] [] false, 0)) gs in
+  (mkNstate (map (fun e => (fst e, (base + gen_position (snd e) gs)%nat)) (ns_store st)) (ns_made st ++ args),
+   OBoundary :: map (fun a => ONew (Ok a)) args).
+
+Definition n_step (st : nstate) (o : nop) : nstate * list pop :=
+  match o with
+  | NNew nm sp =>
+    match resolve sp with
+    | Ok a => (mkNstate (st_bind (ns_store st) nm (length (ns_made st))) (ns_made st ++ [a]), [ONew (Ok a)])
+    | Err e => (mkNstate (st_forget (ns_store st) nm) (ns_made st), [ONew (Err e)])
+    end
+  | NAlias nm' nm =>
+    match st_lookup (ns_store st) nm with
+    | Some g => (mkNstate (st_bind (ns_store st) nm' g) (ns_made st), [])
+    | None => (mkNstate (st_forget (ns_store st) nm') (ns_made st), [])
+    end
+  | NDraw nm =>
+    match st_lookup (ns_store st) nm with
+    | Some g => (st, [ODraw g 1])
+    | None => (st, [])
+    end
+  | NForget nm => (mkNstate (st_forget (ns_store st) nm) (ns_made st), [])
+  | NContinue => n_continue st
+  | NFresh => (mkNstate [] (ns_made st), [OBoundary])
+  end.
+
+Fixpoint n_run (st : nstate) (prog : list nop) : list pop :=
+  match prog with
+  | [] => []
+  | o :: r => let '(st1, ops) := n_step st o in ops ++ n_run st1 r
+  end.
+
+(* the (generator, context, index) keys of all draws of a program over names *)
+Definition names_keys (c0 : Z) (prog : list nop) : list (rspec * Z * Z) :=
+  process_keys c0 (n_run n_init prog).
+
 (* ---------------------------------------------------------------- correspondence cases *)
 
 (* one call of scramble_number with the observed values of int(log)+1 and of the mask *)
@@ -429,7 +509,10 @@ Inductive case :=
 (* c0 = value of the process-wide counter before the first constructor call;  masks = the observed
    mask_for_key table of the WHOLE process (key, numbits, first mask seen): one function for all runs;
    bpcs = observed int(log(size, 2)) per alphabet size *)
-| CProc (c0 : Z) (masks : list (Z * Z * Z)) (bpcs : list (Z * Z)) (events : list pevent).
+| CProc (c0 : Z) (masks : list (Z * Z * Z)) (bpcs : list (Z * Z)) (events : list pevent)
+(* a program over names (runs of one recipe chained by continuations) with the index every draw used,
+   read back from the id / code that reached the output *)
+| CNames (prog : list nop) (indexes : list Z).
 
 Definition tab_mask (t : list (Z * Z * Z)) (key nb : Z) : Z :=
   match find (fun e => (fst (fst e) =? key) && (snd (fst e) =? nb)) t with
@@ -540,6 +623,7 @@ Definition check_case (c : case) : bool :=
     forallb (fun it => lres_eqb (base_encode alphabet (fst it)) (snd it)) items
   | CGens gens => forallb check_gcase gens
   | CProc c0 masks bpcs events => check_events (tab_mask masks) (tab_bpc bpcs) (p_init c0) events
+  | CNames prog indexes => list_eqb Z.eqb (map (fun k : rspec * Z * Z => snd k) (names_keys 1 prog)) indexes
   end.
 
 (* ---------------------------------------------------------------- process-level view *)
